@@ -126,11 +126,18 @@ gigabytes (so can the real patcher: that is the format).  `safePatch` walks the 
 damaged patch as the model reads them and admits the case only if every offset, count and size
 that drives a write is small; anything else is skipped. -/
 
+/-- a path with a NUL byte inside: every `std::fs` call on it fails (`InvalidInput`, the path cannot
+become a C string); `Base/Fs.lean` has no such paths (the theorems are about NUL-free names), so a
+damaged patch that names one is not compared -/
+def nulFree (p : Bytes) : Bool := !(Patch.trimNul p).contains 0
+
 def chunkSafe : Patch.Chunk → Bool
+  | .addDirectory n => nulFree n
+  | .deleteDirectory n => nulFree n
+  | .fileOp _ off size _ path => off.toNat ≤ 2 ^ 22 && size.toNat ≤ 2 ^ 22 && nulFree path
   | .addData _ _ _ off del data => off.toNat ≤ 2 ^ 22 && del.toNat ≤ 2 ^ 20 && data.length ≤ 2 ^ 20
   | .deleteData _ _ _ off num => off.toNat ≤ 2 ^ 22 && num.toNat ≤ 2 ^ 13
   | .expandData _ _ _ off num => off.toNat ≤ 2 ^ 22 && num.toNat ≤ 2 ^ 13
-  | .fileOp _ off size _ _ => off.toNat ≤ 2 ^ 22 && size.toNat ≤ 2 ^ 22
   | _ => true
 
 def scanSafe (inflate : Bytes → Nat → Option Bytes) : Nat → Bytes → Bool
